@@ -257,11 +257,15 @@ package resource_division
 // every element of the priority queue is (a boxed pointer to) a record of the remainder table rr
 //@ define pqFromTable(pq *su.PriorityQueue, rr map[common_info.QueueID]*remainingRequestedResource, n int) bool = forall i int :: 0 <= i && i < n ==> typeis(pq.queue.items[i], "*remainingRequestedResource") && (exists k in rr :: unbox(pq.queue.items[i], "*remainingRequestedResource") == rr[k])
 
+// priority queues and interface cells that existed before the call are untouched
+//@ define oldQueuesKept() bool = (forall p *su.priorityQueue :: p != nil && !fresh(p) ==> p.items == old(p.items)) && (forall c *interface{} :: old(allocated(c)) ==> *c == old(*c))
+
 //@ func sortByOverQuotaWeight
 //@   props C09x
 //@   fresh
 //@   loop 1
 //@     invariant sortedGroupQueues != nil && fresh(sortedGroupQueues) && sortedGroupQueues.maxQueueSize == 0 - 1
+//@     invariant oldQueuesKept()
 //@     invariant forall k in visited :: k in remainingRequested
 //@     invariant pqFromTable(sortedGroupQueues, remainingRequested, len(sortedGroupQueues.queue.items))
 //@   ensures [unbounded] result != nil && result.maxQueueSize == 0 - 1
@@ -282,6 +286,7 @@ package resource_division
 //@   modifies family(remainingRequested[""].queue.CPU.FairShare), family(remainingRequested[""].queue.lastFairShare)
 //@   loop 1
 //@     invariant sortedQueues != nil && fresh(sortedQueues)
+//@     invariant oldQueuesKept()
 //@     invariant pqFromTable(sortedQueues, remainingRequested, len(sortedQueues.queue.items))
 //@     invariant cur(totalResourceAmount) >= 0.0 && cur(totalResourceAmount) <= totalResourceAmount
 //@     invariant rrUsable(remainingRequested)
